@@ -205,18 +205,34 @@ fn runs(out: &mut Out, r: &mut Rng, count: u64, long: u64) {
         let t0 = emu.verif_frame_clocks();
         let k_total = if halt_variant { 1 + r.below(long) } else { 1 + r.below(12) } as usize;
         // host slicing: any partition of k_total into FrameCount(n) calls
-        emu.set_debug_interface(VDebug::Never);
+        // ... with, in half of the runs, breakpoint stops every bp_k instructions in between: the host resumes until
+        // the call's frames are reported complete
+        let bp_k = if r.chance(1, 2) { 0 } else { 1 + r.below(6000) };
+        emu.set_debug_interface(if bp_k == 0 { VDebug::Never } else { VDebug::Every { k: bp_k, n: 0 } });
         let mut left = k_total;
         let mut slicing = vec![];
-        while left > 0 {
+        let mut stuck = false;
+        while left > 0 && !stuck {
             let n = 1 + r.below(left as u64) as usize;
             let n = if r.chance(1, 2) { 1 } else { n };
             emu.set_speed(EmulationMode::FrameCount(n));
-            let info = emu.emulate_frames(Duration::from_secs(100000)).expect("emulate");
-            assert!(info.stop_reason == rustzx_core::EmulationStopReason::Completed);
+            let mut calls = 0u64;
+            loop {
+                let info = emu.emulate_frames(Duration::from_secs(100000)).expect("emulate");
+                if info.stop_reason == rustzx_core::EmulationStopReason::Completed {
+                    break;
+                }
+                assert!(bp_k != 0 && info.stop_reason == rustzx_core::EmulationStopReason::Breakpoint);
+                calls += 1;
+                if calls > 100_000 * n as u64 {
+                    stuck = true; // the frames were never reported complete: the count below will not add up
+                    break;
+                }
+            }
             slicing.push(n);
             left -= n;
         }
+        emu.set_debug_interface(VDebug::Never);
         // single-step to the loop boundary, counting further frame wraps through the clock
         let mut extra = 0usize;
         let mut guard = 0;
@@ -244,10 +260,10 @@ fn runs(out: &mut Out, r: &mut Rng, count: u64, long: u64) {
         };
         let frames = k_total + extra;
         if halt_variant {
-            out.ev(json!({"ev":"haltrun","tag":format!("R{ri}"),"frames":frames,"ints":de,"iters":hl,"t0":t0,"t1":t1,"slicing":slicing}));
+            out.ev(json!({"ev":"haltrun","tag":format!("R{ri}"),"frames":frames,"ints":de,"iters":hl,"t0":t0,"t1":t1,"slicing":slicing,"bp":bp_k}));
         } else {
             out.ev(json!({"ev":"run","tag":format!("R{ri}"),"frames":frames,"t0":t0,"t1":t1,"iters":hl,"loopT":16,
-                          "ints":de,"intT":61,"expectInts": if ei { -1 } else { 0 }, "ei": ei, "slicing":slicing}));
+                          "ints":de,"intT":61,"expectInts": if ei { -1 } else { 0 }, "ei": ei, "slicing":slicing,"bp":bp_k}));
         }
     }
 }
@@ -299,8 +315,19 @@ pub fn run(args: &Args) {
             init.apply(m.emu.verif_cpu());
             // the instruction: page and opcode uniform; placed only when PC is in RAM
             if init.pc >= 0x4000 && init.pc < 0xFFF0 {
-                let page = r.below(7);
-                let op = r.u8();
+                // a third of the cases come from the encodings whose cycle lists put a register-derived address on the
+                // bus during internal T-states or port cycles (IR, HL, DE, BC, SP, indexed), where the contention model has
+                // the most cases per instruction
+                const SPECIAL: [(u64, u8); 64] = [
+                    (2, 0x47), (2, 0x4F), (2, 0x57), (2, 0x5F), (0, 0x09), (0, 0x19), (0, 0x29), (0, 0x39), (0, 0x03), (0, 0x0B),
+                    (0, 0x33), (0, 0x3B), (0, 0xF9), (0, 0xE3), (3, 0xE3), (0, 0xC5), (0, 0xF5), (3, 0xE5), (0, 0x10), (0, 0x18),
+                    (0, 0x20), (0, 0x34), (0, 0x35), (3, 0x34), (4, 0x35), (3, 0x36), (3, 0x46), (4, 0x77), (3, 0x86), (1, 0x06),
+                    (1, 0x46), (1, 0x86), (1, 0xC6), (2, 0x67), (2, 0x6F), (2, 0xA0), (2, 0xA1), (2, 0xA2), (2, 0xA3), (2, 0xA8),
+                    (2, 0xA9), (2, 0xAA), (2, 0xAB), (2, 0xB0), (2, 0xB1), (2, 0xB2), (2, 0xB3), (2, 0xB8), (2, 0xB9), (2, 0xBA),
+                    (2, 0xBB), (0, 0xDB), (0, 0xD3), (2, 0x40), (2, 0x41), (2, 0x78), (2, 0x79), (2, 0x70), (2, 0x71), (2, 0x4A),
+                    (2, 0x42), (3, 0x09), (0, 0xCD), (0, 0xC7),
+                ];
+                let (page, op) = if r.chance(1, 3) { *r.pick(&SPECIAL) } else { (r.below(7), r.u8()) };
                 let bytes: Vec<u8> = match page {
                     0 => vec![op],
                     1 => vec![0xCB, op],
